@@ -170,6 +170,12 @@ func (s *Translator) usePatternPredicateExistencePlacement(patternPart *PatternP
 // futures collected for the current MATCH/OPTIONAL MATCH query part's WHERE expressions
 func (s *Translator) buildPatternPredicates() error {
 	for _, predicateFuture := range s.query.CurrentPart().patternPredicates {
+		// The futures of every MATCH of the query part accumulate in one list. A predicate that an earlier
+		// MATCH already rendered must not be rendered again against the scope of a later MATCH.
+		if predicateFuture.Satisfied() {
+			continue
+		}
+
 		var (
 			lastFrame *Frame
 
